@@ -40,6 +40,32 @@ TRIGGERS = [
 ]
 
 
+def _haz_sub(body: str, para_start: bool) -> str:
+    """replace marker-like words; an ESCAPED marker opening a PARAGRAPH ('1\\. not a list', '\\- dash' after a blank line) is
+    ordinary input the formatter has to keep escaped — not a trigger of the wrapped-line-head finding — and stays"""
+    def repl(mm) -> str:
+        if para_start and mm.start() == 0 and "\\" in mm.group(0):
+            return mm.group(0)
+        return "w" * max(1, len(mm.group(0)))
+    return HAZ_ANY.sub(repl, body)
+
+
+_DELIM_ROW = re.compile(r"^[ >]*\|?[ ]*:?-+:?[ ]*(?:\|[ ]*:?-+:?[ ]*)*\|?[ ]*$")
+
+
+def table_lines(lines: list[str]) -> set[int]:
+    """indices of the lines that belong to a GFM table: a delimiter row, the header above it and the '|' rows below it"""
+    out: set[int] = set()
+    for i, l in enumerate(lines):
+        if "|" in l and "-" in l and _DELIM_ROW.match(l) and i > 0 and "|" in lines[i - 1]:
+            out.update((i - 1, i))
+            j = i + 1
+            while j < len(lines) and lines[j].lstrip(" >").startswith("|"):
+                out.add(j)
+                j += 1
+    return out
+
+
 def neutralise(doc: str) -> str:
     """Remove exactly the triggers of the known findings (and nothing else)."""
     d = doc
@@ -50,7 +76,11 @@ def neutralise(doc: str) -> str:
     d = re.sub(r"(%\}|\}\}|#\}|-->) (?=\{%|\{\{|\{#|<!--)", r"\1 x ", d)                    # a word between separated tags                # word between bare URL and hard break
     lines = []
     fence = ""
-    for line in d.split("\n"):
+    prev_blank = True
+    all_lines = d.split("\n")
+    tbl = table_lines(all_lines)
+    for idx, line in enumerate(all_lines):
+        was_blank, prev_blank = prev_blank, not line.strip(" >\t")
         st = re.sub(r"^(?:[ ]{0,3}>[ ]?|[ ]+|(?:[-*+]|\d+[.)])[ ]+)*", "", line)
         fm = re.match(r"^(`{3,}|~{3,})(.*)$", st)
         if fence:
@@ -62,18 +92,28 @@ def neutralise(doc: str) -> str:
             fence = fm.group(1)
             lines.append(line)
             continue
+        if idx in tbl:
+            lines.append(line)          # a table row is structure, not prose with marker-like words
+            continue
         m = re.match(r"^([ >]*(?:(?:[-*+]|\d+[.)])[ ]+(?:\[[ xX]\][ ]+)?)*(?:#{1,6}[ ]+)?)(.*)$", line)
         head, body = m.group(1), m.group(2)
-        body = HAZ_ANY.sub(lambda mm: "w" * max(1, len(mm.group(0))), body)               # hazard words inside prose
+        body = _haz_sub(body, was_blank or bool(head.strip(" >")))               # hazard words inside prose
         lines.append(head + body)
     return "\n".join(lines)
 
 
 def neutralise_hard(doc: str) -> str:
     out = []
-    for line in neutralise(doc).split("\n"):
+    prev_blank = True
+    all_lines = neutralise(doc).split("\n")
+    tbl = table_lines(all_lines)
+    for idx, line in enumerate(all_lines):
+        was_blank, prev_blank = prev_blank, not line.strip(" >\t")
+        if idx in tbl:
+            out.append(line)
+            continue
         m = re.match(r"^([ >]*(?:(?:[-*+]|\d+[.)])[ ]+(?:\[[ xX]\][ ]+)?)*(?:#{1,6}[ ]+)?)(.*)$", line)
-        out.append(m.group(1) + HAZ_ANY.sub(lambda mm: "w" * max(1, len(mm.group(0))), m.group(2)))
+        out.append(m.group(1) + _haz_sub(m.group(2), was_blank or bool(m.group(1).strip(" >"))))
     return "\n".join(out)
 
 
